@@ -129,3 +129,30 @@ if __name__ == '__main__':
                     traceback.print_exc()
                     ok, detail = False, 'crash %r' % e
                 print('%-40s %s-first %-5s %5.1fs %s' % (tn[:40], first, ok, time.time() - t0, detail[:260]))
+
+
+def wblock_roundtrip(m, n, first='enc'):
+    """belt_wblock_dec(belt_wblock_enc(d)) = d on a symbolic n-byte buffer and key (terms). Returns (ok, detail)"""
+    names = ('belt_wblock_enc', 'belt_wblock_dec') if first == 'enc' else ('belt_wblock_dec', 'belt_wblock_enc')
+    insts = [m.roots.get('verif_root__belt_block__free__' + nm) for nm in names]
+    if None in insts:
+        return None, 'roots missing'
+    I = mk_interp(m, 60_000_000)
+    st = State()
+    I.fresh += 1
+    dobj = ('P', 'data', I.fresh)
+    dsyms = [topint(8, False, T.sym('d[%d]' % i, 8)) for i in range(n)]
+    st.mem[dobj] = Arr(u8_slice_type(I), dsyms)
+    data = Ptr(dobj, (), I.usize(0), I.usize(n), None, None, True)
+    f = m.fn(insts[0])
+    args = default_args(I, st, f, {1: data})
+    keyp = args[1]
+    for inst in insts:
+        status, r = run(I, inst, [data, keyp], st)
+        if status != 'ok' or not isinstance(r, Enum) or r.variant != 0:
+            return False, '%s %r' % (status, str(r)[:200])
+    out = st.mem[dobj]
+    bad = [(i, x.term) for i, (x, d) in enumerate(zip(out.e, dsyms)) if x.term is not d.term]
+    if bad:
+        return False, 'byte %d: %s' % (bad[0][0], T.first_diff(bad[0][1], dsyms[bad[0][0]].term))
+    return True, '%d bytes' % n
